@@ -21,7 +21,8 @@ import (
 // (closed under the architectural lattice AVX2 => AVX => SSE4.2 => SSE4.1 =>
 // SSSE3 => SSE3 => SSE2) must cover what the symbol needs.
 
-var asmTextRE = regexp.MustCompile(`^TEXT\s+·([A-Za-z0-9_]+)\(SB\)`)
+var asmTextRE = regexp.MustCompile(`^TEXT\s+·?([A-Za-z0-9_]+)(?:<>)?\(SB\)`)
+var asmCallRE = regexp.MustCompile(`^(?:CALL|JMP)\s+·?([A-Za-z0-9_]+)(?:<>)?\(SB\)`)
 
 var featureOfField = map[string]string{
 	"HasAVX2": "AVX2", "HasAVX": "AVX", "HasSSE42": "SSE4.2", "HasSSE41": "SSE4.1", "HasSSSE3": "SSSE3", "HasSSE3": "SSE3", "HasSSE2": "SSE2",
@@ -100,6 +101,7 @@ type asmSym struct {
 	needs map[string]string // extension -> first mnemonic needing it
 	raw   int               // BYTE/WORD/LONG raw encodings (not classified)
 	insns int
+	callees []string        // assembly symbols reached by CALL/JMP
 }
 
 func (c *Ctx) asmSymbols(pkgPath string) (map[string]*asmSym, error) {
@@ -155,9 +157,28 @@ func (c *Ctx) asmSymbols(pkgPath string) (map[string]*asmSym, error) {
 					continue
 				}
 				cur.insns++
+				if m := asmCallRE.FindStringSubmatch(stmt); m != nil {
+					cur.callees = append(cur.callees, m[1])
+				}
 				if need := asmNeed(mn, ops); need != "" {
 					if _, seen := cur.needs[need]; !seen {
 						cur.needs[need] = mn
+					}
+				}
+			}
+		}
+	}
+	// merge the needs of assembly callees (local helper routines) transitively
+	for changed := true; changed; {
+		changed = false
+		for _, s := range out {
+			for _, cn := range s.callees {
+				if t, ok := out[cn]; ok && t != s {
+					for need, mn := range t.needs {
+						if _, seen := s.needs[need]; !seen {
+							s.needs[need] = mn + " (in " + cn + ")"
+							changed = true
+						}
 					}
 				}
 			}
